@@ -624,7 +624,36 @@ func c20Big(extra int) error {
 		}
 		statsFor("C20").count(1, 1)
 	}
-	statsFor("C20").class("large_dump_requests", 4)
+	// An insufficient budget: the handler parses a dump truncated at an arbitrary byte (C10's
+	// subject, reached through the handler): it may refuse (500) or serve what it could parse,
+	// but it must answer, and a 200 must be a complete page that invents no goroutine.
+	for _, maxmem := range []int{1, 1 << 20, size - 1000} {
+		resp, err := client.Get(fmt.Sprintf("%s/debug?augment=0&maxmem=%d", srv.URL, maxmem))
+		if err != nil {
+			return fmt.Errorf("maxmem=%d (dump %d bytes): %v", maxmem, size, err)
+		}
+		body, _ := io.ReadAll(resp.Body)
+		resp.Body.Close()
+		switch resp.StatusCode {
+		case 500:
+		case 200:
+			if !bytes.HasSuffix(bytes.TrimSpace(body), []byte(`<div class="bottom-padding"></div>`)) {
+				return fmt.Errorf("maxmem=%d: truncated dump served as an incomplete page", maxmem)
+			}
+			total := 0
+			for _, m := range reRoutines.FindAllSubmatch(body, -1) {
+				k, _ := strconv.Atoi(string(m[1]))
+				total += k
+			}
+			if total > runtime.NumGoroutine()+64 {
+				return fmt.Errorf("maxmem=%d: page accounts for %d goroutines, only about %d exist", maxmem, total, runtime.NumGoroutine())
+			}
+		default:
+			return fmt.Errorf("maxmem=%d (dump %d bytes): status %d", maxmem, size, resp.StatusCode)
+		}
+		statsFor("C20").count(1, 1)
+	}
+	statsFor("C20").class("large_dump_requests", 7)
 	return nil
 }
 
